@@ -125,7 +125,7 @@ impl Check for C14 {
             Outcome::Accepted(b) => b,
             Outcome::Rejected { errors, .. } => {
                 // stable class: the message up to the first quoted name
-                let what: String = errors[0].message.split('"').next().unwrap_or("").chars().take(40).collect();
+                let what = message_class(&errors[0].message);
                 return Verdict::Violation {
                     signature: format!("C14/acceptance/{}:{}", errors[0].kind, what.trim()),
                     detail: format!(
